@@ -195,15 +195,18 @@ func (p *Conn) checkProxyHeader() error {
 	// initial real src/dst address
 	srcAddr := net.JoinHostPort(hdr.SourceAddress.String(), fmt.Sprintf("%d", hdr.SourcePort))
 	p.srcAddr, err = net.ResolveTCPAddr(hdr.TransportProtocol.String(), srcAddr)
-	if err != nil { /* never go here */
+	if err != nil {
 		p.Close()
+		p.headerErr = err
 		return err
 	}
 
 	dstAddr := net.JoinHostPort(hdr.DestinationAddress.String(), fmt.Sprintf("%d", hdr.DestinationPort))
 	p.dstAddr, err = net.ResolveTCPAddr(hdr.TransportProtocol.String(), dstAddr)
-	if err != nil { /* never go here */
+	if err != nil {
 		p.Close()
+		p.srcAddr = nil
+		p.headerErr = err
 		return err
 	}
 
